@@ -339,7 +339,7 @@ class Telomere:
 
     def _enter_senescence(self, reason: SenescenceReason):
         """Enter senescence state."""
-        if self._phase in (LifecyclePhase.SENESCENT, LifecyclePhase.APOPTOTIC, LifecyclePhase.TERMINATED):
+        if self._phase in (LifecyclePhase.NASCENT, LifecyclePhase.SENESCENT, LifecyclePhase.APOPTOTIC, LifecyclePhase.TERMINATED):
             return
 
         self._senescence_reason = reason
